@@ -92,6 +92,16 @@ def spec(f):
     return f
 
 
+OPAQUE = set()
+
+
+def opaque(f):
+    """spec function presented to the solver as an uninterpreted function plus its defining equation at every use
+    (lets congruence decide F(a) == F(b) from a == b without expanding nonlinear bodies)"""
+    OPAQUE.add(f.__name__)
+    return f
+
+
 # ------------------------------------------------------------------ run-time vocabulary
 def implies(a, b):
     return (not a) or b
